@@ -685,7 +685,7 @@ func SetCacheKey(f *Function) string {
 	if !f.Lambda {
 		out.WriteString("func ")
 	}
-	f.CacheKey = f.finishFuncOutput(&out, true)
+	f.CacheKey = f.finishFuncOutput(&out, true, true)
 	return f.CacheKey
 }
 
@@ -726,12 +726,14 @@ func (f Function) lambdaPrint(ps *ast.PrintState, out *strings.Builder) string {
 }
 
 // Common part of Inspect and SetCacheKey. Outputs the rest of the function.
-func (f Function) finishFuncOutput(out *strings.Builder, compact bool) string {
+// keepGrouping is for the cache key: two functions whose bodies differ only by a + (b + c) vs a + b + c print alike
+// but don't compute the same thing (arrays, strings, floats) and must not share cached results.
+func (f Function) finishFuncOutput(out *strings.Builder, compact, keepGrouping bool) string {
 	needParen := !f.Lambda || len(f.Parameters) != 1
 	if needParen {
 		out.WriteString("(")
 	}
-	ps := &ast.PrintState{Out: out, Compact: compact}
+	ps := &ast.PrintState{Out: out, Compact: compact, KeepGrouping: keepGrouping}
 	ps.ComaList(f.Parameters)
 	if f.Lambda {
 		return f.lambdaPrint(ps, out)
@@ -749,13 +751,14 @@ func (f Function) finishFuncOutput(out *strings.Builder, compact bool) string {
 }
 
 func (f Function) Inspect() string {
-	if f.Name == nil {
-		return f.CacheKey
-	}
 	out := strings.Builder{}
-	out.WriteString("func ")
-	out.WriteString(f.Name.Literal())
-	return f.finishFuncOutput(&out, true)
+	if f.Name != nil {
+		out.WriteString("func ")
+		out.WriteString(f.Name.Literal())
+	} else if !f.Lambda {
+		out.WriteString("func ")
+	}
+	return f.finishFuncOutput(&out, true, false)
 }
 
 func (f Function) JSON(w io.Writer) error {
@@ -771,7 +774,7 @@ func (f Function) Format() string {
 		out.WriteString(f.Name.Literal())
 	}
 	f.Lambda = false // force the fun style (and this receiver is a copy).
-	return f.finishFuncOutput(&out, false)
+	return f.finishFuncOutput(&out, false, false)
 }
 
 const MaxSmallArray = 8
